@@ -50,16 +50,10 @@ Proof. exact write_site_fresh. Qed.
    field of its Parser.  A new field, a package-level variable or a field that Parse does not
    assign breaks these obligations (and the check then searches for the failing history). *)
 Theorem C13_objects_have_the_modelled_fields :
-  fields_of "Parser" struct_fields = Some ["expression"; "tokens"; "index"]%string /\
-  fields_of "JMESPath" struct_fields = Some ["ast"; "intr"]%string /\
-  fields_of "treeInterpreter" struct_fields = Some ["fCall"]%string /\
-  fields_of "functionCaller" struct_fields = Some ["functionTable"]%string /\
-  fields_of "functionEntry" struct_fields = Some ["name"; "arguments"; "handler"; "hasExpRef"]%string /\
-  fields_of "Lexer" struct_fields = Some ["expression"; "currentPos"; "lastWidth"; "buf"]%string.
+  forall n known, In (n, known) modelled_objects -> fields_known n known = true.
 Proof. exact state_objects. Qed.
 
-Theorem C13_no_package_level_state :
-  package_vars = ["_astNodeType_index"; "_tokType_index"; "basicTokens"; "bindingPowers"; "identifierTrailingBits"; "whiteSpace"]%string.
+Theorem C13_no_package_level_state : forall v, In v package_vars -> In v constant_tables.
 Proof. exact state_package_vars. Qed.
 
 Theorem C13_parse_assigns_every_field_of_the_parser :
